@@ -664,6 +664,8 @@ const preamble = `(set-option :produce-models true)
 (declare-fun elemI (Int) Int)
 (assert (forall ((b Int) (i Int)) (! (and (= (elemB (elem b i)) b) (= (elemI (elem b i)) i) (< (elem b i) 0)) :pattern ((elem b i)))))
 (assert (forall ((a Int)) (! (=> (< a 0) (= (elem (elemB a) (elemI a)) a)) :pattern ((elemB a)) :pattern ((elemI a)))))
+(declare-fun cntzmark (Int Int Int) Bool)
+(assert (forall ((b Int) (o Int) (n Int)) (! (cntzmark b o n) :pattern ((cntzmark b o n)))))
 (declare-fun at (Int Int Int) Int)
 (assert (forall ((b Int) (o Int) (i Int)) (! (= (at b o i) (elem b (+ o i))) :pattern ((at b o i)))))
 (define-fun isold ((x Int) (a Int)) Bool (ite (< x 0) (< (elemB x) a) (< x a)))
@@ -989,6 +991,9 @@ func (tr *FnCtx) instr(st *State, in ssa.Instruction, b *ssa.BasicBlock, idx int
 		tr.vals[x] = tr.lookup(st, x)
 	case *ssa.MapUpdate:
 		tr.mapUpdate(st, x)
+		// anchor "after mapupdate#k": k-th map assignment of the function in block order
+		tr.callCount["mapupdate"]++
+		tr.runAts(st, fmt.Sprintf("after mapupdate#%d", tr.callCount["mapupdate"]), nil)
 	case *ssa.MakeMap:
 		tr.vals[x] = tr.makeMap(st, x)
 	case *ssa.MakeSlice:
